@@ -304,7 +304,36 @@ def run(ctx):
     at = [f for f in prog.fns('Builder::AddTarget')]
     error_discipline(ctx, 'C17.E1', at + [prog.fn('Plan::RefreshDyndepDependents'), prog.fn('Plan::DyndepsLoaded')])
     check_build_exit_codes(ctx, 'C17.E1', prog)
-    ctx.floor('C17.E1', 21)
+    # a scan error found while bringing the manifest up to date (a cycle among the generator's inputs, an unreadable
+    # depfile / dyndep file) stops ninja: real_main tells "error" from "nothing to do" by a value that this failure sets.
+    # RebuildManifest reports the scan error in *err only; so either real_main looks at err, or every failing return of
+    # RebuildManifest behind a failed Builder::AddTarget stores the status real_main looks at
+    rmn = prog.fn('real_main')
+    rbm = prog.fn('NinjaMain::RebuildManifest')
+    looks_at_err = False
+    for bid, b in rmn.blocks.items():
+        for i, s2 in enumerate(b['succ']):
+            for k_, p_, a_ in rmn.edge_facts(bid, i, all=True):
+                if 'err' in k_ and 'empty' in k_ and any(True for _ in rmn.calls('NinjaMain::RebuildManifest')):
+                    # the test must be reachable from the failed regeneration
+                    for e_ in rmn.calls('NinjaMain::RebuildManifest'):
+                        if bid in rmn.reachable_from(e_['_b']) or bid == e_['_b']:
+                            looks_at_err = True
+    status_param = [p_['n'] for p_ in rbm.params if 'ExitStatus' in (p_.get('ty') or '')]
+    stores_status = True
+    for e_ in rbm.calls('Builder::AddTarget'):
+        for i, s2 in enumerate(rbm.blocks[e_['_b']]['succ']):
+            if s2 is None:
+                continue
+            if any(p_ is False and mentions_call(a_, 'Builder::AddTarget') for k_, p_, a_ in rbm.edge_facts(e_['_b'], i)):
+                r_ = rbm.find_path(None, lambda x: x['k'] == 'ret', from_succ=s2,
+                                   is_blocker=lambda x: x['k'] == 'asg' and status_param and mentions_var(x['l'], status_param[0]))
+                if r_ is not None:
+                    stores_status = False
+    ctx.check('C17.E1', looks_at_err or (bool(status_param) and stores_status), rmn.name, 'regeneration:scan-error-dropped', rmn.loc,
+              'a failed scan of the manifest target is an error for real_main: it tests err after RebuildManifest (%s) or the failing return '
+              'stores the status it tests (%s)' % (looks_at_err, stores_status))
+    ctx.floor('C17.E1', 22)
     check_reset_complete(ctx)
 
 
